@@ -61,11 +61,17 @@ func (b *Bstr[T]) UnmarshalCBORStream(r io.Reader, o DecoderOptions, flattened i
 	if n > math.MaxInt64 {
 		return fmt.Errorf("bstr too long to decode")
 	}
-	r = io.LimitReader(r, int64(n))
+	lr := &io.LimitedReader{R: r, N: int64(n)}
 
-	dec = NewDecoder(r)
+	dec = NewDecoder(lr)
 	dec.DecoderOptions = o
-	return dec.Decode(&b.Val)
+	if err := dec.Decode(&b.Val); err != nil {
+		return err
+	}
+	if lr.N != 0 {
+		return fmt.Errorf("bstr-wrapped item does not fill its byte string: %d bytes left", lr.N)
+	}
+	return nil
 }
 
 // ByteWrap is a Bstr that treats Bstr[[]byte] as Bstr[cbor.RawBytes]. While
